@@ -25,6 +25,10 @@ inductive Strategy where
   | other
   deriving Repr, DecidableEq, Inhabited
 
+/-- the values of the `Strategy` constants (`BestPingStrategy`, `FirstWorkingConnection`) -/
+def strategyOfName (s : String) : Strategy :=
+  if s == "best-ping" then .bestPing else if s == "first-working" then .firstWorking else .other
+
 /-- `var maxSeqno uint32; for _, c := range p.conns { if maxSeqno < seqno { maxSeqno = seqno } }` — over ALL
 members, dead ones included. -/
 def maxSeqno (cs : List Conn) : BitVec 32 :=
@@ -69,6 +73,18 @@ def updateBest (wrap : Bool) (st : Strategy) (cs : List Conn) (prev : Option Con
       | some c => some c
       | none => prev
     | .other => prev
+
+/-- the `switch p.strategy` of `updateBest` given the maximum computed by the first loop: the member to switch to,
+`none` when there is no candidate (or the strategy is unknown) -/
+def selectWith (wrap : Bool) (st : Strategy) (m : BitVec 32) (cs : List Conn) : Option Conn :=
+  match st with
+  | .bestPing => findBestPing wrap m cs
+  | .firstWorking => findFirstWorking wrap m cs
+  | .other => none
+
+/-- the maximum loop over a list of heads already read -/
+def maxOfSeqs (l : List (BitVec 32)) : BitVec 32 :=
+  l.foldl (fun m x => if m < x then x else m) 0
 
 /-! ### The property's rule, stated directly (specification) -/
 
